@@ -216,3 +216,30 @@ theorem XEnv.isHole_mapConst (M : SpMap) (x : XEnv) (g : G) : (x.mapConst M).isH
   cases g <;> simp [XEnv.isHole, XEnv.mapConst, G.mapConst]
 
 end Chumsky
+
+namespace Chumsky
+
+/-- **C10 for recursive expression grammars** (atom and operator grammars whose literal constants carry no span): every
+    runner of the extension machine commutes with the re-basing of spans -/
+theorem runX_kind_all {M : SpMap} {env env' : Env} (x : XEnv) (h : KindRel M env env') (hatom : x.atom.constOk = true)
+    (hops : ∀ o ∈ x.ops, (match o with | .infix _ _ g => g | .prefix _ g => g | .postfix _ g => g).constOk = true) :
+    ∀ n : Nat, KindSimR M env env' (runX x n) ∧ KindSimN M env env' (nextX x n) ∧ KindSimK M env env' (mkIterX x n)
+  | 0 => ⟨fun _ _ _ => rfl, fun _ _ _ _ => rfl, fun _ _ _ => rfl⟩
+  | n + 1 => by
+    obtain ⟨hR, hN, hK⟩ := runX_kind_all x h hatom hops n
+    refine ⟨?_, ?_, ?_⟩
+    · intro m g st
+      simp only [runX]
+      have hh : x.isHole (g.mapConst M) = x.isHole g := by
+        cases g <;> simp [XEnv.isHole, G.mapConst]
+      rw [hh]
+      by_cases hg : x.isHole g = true
+      · simp only [hg, if_true]
+        have := prattGo_kind h hR m x.atom x.ops n 0 st
+        rwa [G.mapConst_of_constOk _ x.atom hatom, opsMapConst_of_constOk _ x.ops hops] at this
+      · simp only [hg]
+        exact step_kind h hR hN hK n m g st
+    · simp only [nextX]; exact stepNext_kind hR hN hK
+    · simp only [mkIterX]; exact stepMk_kind h hR hK
+
+end Chumsky
